@@ -1,7 +1,9 @@
 //! C07 / C09: drives the REAL `hyperdriver::server::Server` (plain and `with_graceful_shutdown`)
 //! with scripted clients and prints the observable event log.
 //!
-//! case line: <mode g|p> <proto h1|h2|auto> <transport duplex|dtls|tcp|unix>[@<cap>] <ev> <ev> ...
+//! case line: <mode g|p|k> <proto h1|h2|auto> <transport duplex|dtls|tcp|unix>[@<cap>] <ev> <ev> ...
+//!   mode k = g, but the harness KEEPS the completed serving future alive until the end of the case (a caller
+//!   that pins the future and goes on working); the listener inside it stays open, queued connects get no answer.
 //!   @<cap>: DuplexIncoming::with_max_buf_size(cap) (duplex / dtls); a connect token may carry `:<n>`, the
 //!   buffer size that client asks for (default 65536; `C0:0` = a raw client asking for a zero-capacity stream).
 //!   Both are variation the model abstracts from: the observable behaviour must not depend on them.
@@ -710,7 +712,7 @@ async fn run_case(line: String) -> String {
     if f.len() < 3 {
         return "BADCASE".into();
     }
-    let (graceful, proto) = (f[0] == "g", f[1]);
+    let (graceful, keep, proto) = (f[0] == "g" || f[0] == "k", f[0] == "k", f[1]);
     let (transport, cap) = match f[2].split_once('@') {
         Some((t, c)) => (t, c.parse::<usize>().ok()),
         None => (f[2], None),
@@ -807,13 +809,19 @@ async fn run_case(line: String) -> String {
                     let _ = sig_rx.await;
                 });
                 tokio::spawn(async move {
-                    let r = futures_util::FutureExt::catch_unwind(std::panic::AssertUnwindSafe(fut)).await;
+                    let mut fut = Box::pin(fut);
+                    let r = futures_util::FutureExt::catch_unwind(std::panic::AssertUnwindSafe(fut.as_mut())).await;
                     stop2.store(true, Ordering::SeqCst);
                     slog.put(match r {
                         Ok(Ok(())) => "Z+".into(),
                         Ok(Err(_)) => "Z-".into(),
                         Err(_) => "Z!".into(),
                     });
+                    if keep {
+                        // the caller goes on with other work while the completed future is still alive
+                        std::future::pending::<()>().await;
+                    }
+                    drop(fut);
                 })
             } else {
                 drop(sig_rx);
